@@ -27,6 +27,11 @@ use crate::common::*;
 use crate::config::Config;
 use crate::workers::socket::connection::{run_connection, ConnectionError};
 
+#[cfg(feature = "verif-hooks")]
+pub mod verif_hooks {
+    pub use super::request::{parse_request, RequestParseError};
+}
+
 struct ConnectionHandle {
     close_conn_sender: LocalSender<()>,
     valid_until: Rc<RefCell<ValidUntil>>,
